@@ -109,8 +109,40 @@ def id_plumbing(ctx, rule):
     ctx.floor(rule, "hand-written functions of the id newtypes", n, 30)
 
 
+def size_thresholds(ctx, rule):
+    """C17.c: the library has no size-dependent behaviour switch — no comparison of a value with an integer constant >= 64
+    outside compiler-generated code (the reference tree has none; the constants it compares with are 0, 1, 2 and char codes in
+    predicates).  "Large automata behave like small ones" cannot hold for code that changes its algorithm above a threshold
+    (seed C17k: `if self.terminal_ids.len() > 1024 { bisect } else { scan }`)."""
+    F = ctx.facts
+    n = 0
+    for fn in sorted(F.fns.values(), key=lambda f: f.name):
+        if fn.j.get("exp") or re.search(r"internal::match_function::|scanner_impl_rx::", fn.name):
+            continue       # (character predicates compare code points with constants by nature)
+        for bb, i, s in fn.assigns():
+            rv = s["rv"]
+            if rv["k"] != "binop" or rv["op"] not in ("Lt", "Le", "Gt", "Ge", "Eq", "Ne"):
+                continue
+            n += 1
+            for o in (rv["a"], rv["b"]):
+                if o.get("k") != "const":
+                    continue
+                txt = str(o.get("s", "")) or str(o.get("val", ""))
+                if "SizedTypeProperties" in txt or "::SIZE" in txt:
+                    continue
+                m = re.match(r"^(?:const )?(\d+)_(usize|u32|u64|u16|u128|isize|i32|i64)$", txt) or re.match(r"^(\d+)$", str(o.get("val", "")))
+                if m and int(m.group(1)) >= 64 and o.get("ty", "usize") != "char":
+                    ctx.ob(rule, "no-size-threshold:%s" % M.short_name(fn.name), False,
+                           "%s compares a value with the constant %s: behaviour that depends on a size threshold" % (M.short_name(fn.name), m.group(1)), fn.loc(bb, i))
+    ctx.ob(rule, "no-size-threshold", True, "%d comparisons inspected" % n, "")
+    ctx.floor(rule, "integer comparisons in the library", n, 50)
+
+
 def analyze(ctx, want):
     F = ctx.facts
+    if "C17.c" in want and not getattr(ctx, "_size_thr", False):
+        ctx._size_thr = True
+        size_thresholds(ctx, "C17.c")
     if "C17.a" in want and not getattr(ctx, "_id_plumbing", False):
         ctx._id_plumbing = True
         id_plumbing(ctx, "C17.a")
